@@ -93,7 +93,14 @@ int main(int argc, char **argv) {
     else if (!strcmp(en, "huge")) { for (int i = 0; i < 300; i++) { char k[32], v[64]; snprintf(k, sizeof k, "K%03d", i); memset(v, 'h', 30); v[30] = 0; setenv(k, v, 1); } }
     if (atoi(kv(kvs, "sudo", "0"))) setenv("SUDO_USER", "sudoer", 1);
     if (atoi(kv(kvs, "logname", "0"))) setenv("LOGNAME", "lognm", 1);
-    setenv("TZ", kv(kvs, "tz", "UTC"), 1);   /* a POSIX TZ string: no zoneinfo files needed */
+    setenv("TZ", kv(kvs, "tz", "UTC"), 1);
+    { const char *pw = kv(kvs, "pwd", "none"); char c[PATH_MAX + 64], a[PATH_MAX + 128];
+      if (strcmp(pw, "none") && getcwd(c, sizeof c)) {
+          if (!strcmp(pw, "exact")) setenv("PWD", c, 1);
+          else if (!strcmp(pw, "dotalias")) { char *sl = strrchr(c, '/'); if (sl && sl != c) { *sl = 0; snprintf(a, sizeof a, "%s/./%s", c, sl + 1); } else snprintf(a, sizeof a, "/./%s", c + 1); setenv("PWD", a, 1); }
+          else if (!strcmp(pw, "symlink")) { snprintf(a, sizeof a, "%s/pwdlink", work); unlink(a); if (symlink(c, a) == 0) setenv("PWD", a, 1); }
+          else if (!strcmp(pw, "other")) setenv("PWD", "/usr", 1);
+      } }   /* a POSIX TZ string: no zoneinfo files needed */
     /* ---- ids (last: needs privileges for everything above) */
     long r, e, s, rg, eg, sg;
     if (sscanf(kv(kvs, "ids", "0,0,0,0,0,0"), "%ld,%ld,%ld,%ld,%ld,%ld", &r, &e, &s, &rg, &eg, &sg) == 6) {
@@ -106,6 +113,13 @@ int main(int argc, char **argv) {
     snoopy_inputdatastorage_store_filename("/bin/prog");
     static char *av[] = { "prog", "arg", NULL }; snoopy_inputdatastorage_store_argv(av);
     snoopy_inputdatastorage_store_envp(environ);
+    if (atoi(kv(kvs, "forked", "0"))) {
+        /* evaluate every data source once HERE (anything cached per process/thread gets filled), then fork: the child is what is measured */
+        char *dsl0 = strdup(kv(kvs, "ds", "")); char *s0 = NULL; char *wb = malloc(1 << 16);
+        for (char *it = strtok_r(dsl0, ",", &s0); it; it = strtok_r(NULL, ",", &s0)) { char *full = unhex(it); char *arg = strchr(full, ':'); if (arg) *arg++ = 0; else arg = ""; wb[0] = 0; snoopy_datasourceregistry_callByName(full, wb, 1 << 16, arg); }
+        fflush(stdout);
+        pid_t p = fork(); if (p > 0) { int st; waitpid(p, &st, 0); _exit(WIFEXITED(st) ? WEXITSTATUS(st) : 99); }
+    }
     printf("{");
     struct timeval t0, t1; t0.tv_sec = time(NULL) - 0; /* coarse clock: never ahead of what the data sources read */
     /* ---- (a) data sources */
